@@ -304,6 +304,22 @@ func init() {
 		"internal/godebug.New":             func(fr *frame, args []value) (value, bool) { return (*value)(nil), true },
 		"(*internal/godebug.Setting).Value": func(fr *frame, args []value) (value, bool) { return "", true },
 		"slices.overlaps[[]rune]":          nil,
+		"github.com/dlclark/regexp2/v2/helpers.bytesEqual": func(fr *frame, args []value) (value, bool) {
+			// unsafe.Slice over the rune storage + bytes.Equal: &a[0] panics on an empty slice
+			a, b := args[0].([]value), args[1].([]value)
+			if len(a) == 0 || len(b) == 0 {
+				panic(boundsError{"index out of range [0] with length 0"})
+			}
+			X.Intrinsics["helpers.bytesEqual"]++
+			if len(a) != len(b) {
+				return false, true
+			}
+			r := TTrue
+			for i := range a {
+				r = TAnd(r, eqTerm(a[i], b[i]))
+			}
+			return mkVal(types.Bool, r), true
+		},
 	}
 	for k, v := range intrinsics {
 		if v == nil {
@@ -599,8 +615,16 @@ func SetRuneDomain(name string) {
 		RuneDomain = nil
 		return
 	}
-	base := [][2]rune{{0, 0x24F}, {0x300, 0x303}, {0x370, 0x45F}, {0x660, 0x669}, {0x1E9E, 0x1E9E}, {0x200C, 0x200D}, {0x2028, 0x2029},
-		{0x212A, 0x212A}, {0xD7FF, 0xD7FF}, {0xE000, 0xE000}, {0xFF21, 0xFF3A}, {0xFFFD, 0xFFFD}, {0x10000, 0x1004F}, {0x1D400, 0x1D433}, {0x10FFFF, 0x10FFFF}}
+	if name == "case" {
+		// small domain for the case-insensitivity property: ASCII, Latin-1, Greek and Cyrillic letters (+ closure)
+		setDomainFrom([][2]rune{{0, 0xFF}, {0x391, 0x3C9}, {0x410, 0x44F}, {0x10FFFF, 0x10FFFF}})
+		return
+	}
+	setDomainFrom([][2]rune{{0, 0x24F}, {0x300, 0x303}, {0x370, 0x45F}, {0x660, 0x669}, {0x1E9E, 0x1E9E}, {0x200C, 0x200D}, {0x2028, 0x2029},
+		{0x212A, 0x212A}, {0xD7FF, 0xD7FF}, {0xE000, 0xE000}, {0xFF21, 0xFF3A}, {0xFFFD, 0xFFFD}, {0x10000, 0x1004F}, {0x1D400, 0x1D433}, {0x10FFFF, 0x10FFFF}})
+}
+
+func setDomainFrom(base [][2]rune) {
 	in := map[rune]bool{}
 	var work []rune
 	add := func(r rune) {
